@@ -40,6 +40,7 @@ class C15(Plugin):
     entry = 15
     prop = 15
     counts = {"quick": 2500, "thorough": 250000}
+    runtime_validators = ["tools/textlayer/validate_csv.py"]
     rule = ("case = (prefix without ':', identifier, name, two more (prefix, identifier) pairs, a separator, an arbitrary string to parse, an "
             "optional converter as validation context); identifiers empty / with colons / CR / LF / tab / quotes / commas / backslash / Unicode. "
             "Observed on ReferenceTuple, Reference, NamableReference, NamedReference: curie, from_curie round trip, from_curie with another "
@@ -140,11 +141,14 @@ class C15(Plugin):
         # different pairs are different (also when only the identifier, or only the letter case of the prefix, differs)
         trio = [(p, i), (p2, i2), (p3, i3), (p.swapcase(), i), (p, i + "x")]
         laws = hash(inst[1]) == hash(inst[2]) == hash(inst[3]) and len({inst[1], inst[2], inst[3]}) == 1
+        k = 0
         for a in trio:
             for b in trio:
                 for ca in pyd:
                     for cb in pyd:
-                        for how in range(5):
+                        # the provenance of x rotates through the five kinds (each kind meets every pair of pairs, 45 combinations)
+                        k += 1
+                        for how in ((k % 5, (k // 5) % 5) if a == b else (k % 5,)):
                             x, y = mk_as(ca, *a, how=how), mk_as(cb, *b, nn=name + "y")
                             laws = laws and ((x == y) == (a == b)) and ((x != y) == (a != b)) and (a != b or hash(x) == hash(y))
                             laws = laws and x.pair == a and x.curie == a[0] + ":" + a[1]
@@ -152,7 +156,8 @@ class C15(Plugin):
 
         def lt(a, b):
             """'<' must give the same answer whatever pydantic classes the two references have; -1 if the classes disagree"""
-            answers = {bool(mk_as(ca, *a, how=how) < mk_as(cb, *b, how=(how * 2) % 5)) for ca in pyd for cb in pyd for how in range(5)}
+            answers = {bool(mk_as(ca, *a, how=(ia + 3 * ib) % 5) < mk_as(cb, *b, how=(2 * ia + ib) % 5))
+                       for ia, ca in enumerate(pyd) for ib, cb in enumerate(pyd)}
             return int(answers.pop()) if len(answers) == 1 else -1
 
         o8 = [lt((p, i), (p2, i2)), lt((p2, i2), (p, i)), lt((p2, i2), (p3, i3)), lt((p, i), (p3, i3)), lt((p, i), (p, i)),
